@@ -260,6 +260,15 @@ def parse_rvalue(rhs):
                 caps.append(parse_operand(x.split(': ', 1)[1] if re.match(r'[A-Za-z_0-9]+: ', x) else x))
         return ('closure', m.group(1), caps)
     m = re.match(r'^([A-Za-z_<][^{(]*?) \{ (.*) \}$', rhs)
+    if not m and rhs.endswith(' }') and re.match(r'^[A-Za-z_<]', rhs):
+        # struct path whose generic arguments contain parentheses, e.g. phf::Map::<&str, ()> { .. }
+        depth = 0
+        for i, ch in enumerate(rhs):
+            if ch in '<(': depth += 1
+            elif ch in '>)' and not (ch == '>' and rhs[i - 1] == '-'): depth -= 1
+            elif ch == '{' and depth == 0 and rhs[i - 1] == ' ':
+                m = re.match(r'^(.*) \{ (.*) \}$', rhs[:i - 1] + ' { ' + rhs[i + 2:]) if rhs[i + 1] == ' ' else None
+                break
     if m:
         names = []; ops = []
         for x in split_top(m.group(2)):
@@ -904,7 +913,8 @@ class Machine:
             return z3.ZeroExt(w - v.size(), v)
         if kind in ('Transmute', 'PointerExposeProvenance') and ty in INT_W and isinstance(v, Ref): return AddrV(v)
         if kind in ('PointerCoercion', 'Transmute', 'PtrToPtr', 'Subtype'): return v
-        if kind == 'IntToFloat': return Opaque(('float', v))
+        if kind == 'IntToFloat': return Opaque(('float', float(v) if isinstance(v, int) and not isinstance(v, bool) else v))
+        if kind == 'FloatToFloat' and isinstance(v, Opaque) and v.tag[0] == 'float' and ty == 'f64': return v
         raise Unsupported('cast ' + kind)
 
     def binop(self, op, a, b, ty, tyb=None):
@@ -916,6 +926,16 @@ class Machine:
             raise Unsupported('arithmetic on a pointer address')
         if isinstance(a, EnumV): a = a.disc
         if isinstance(b, EnumV): b = b.disc
+        if isinstance(a, Opaque) and isinstance(b, Opaque) and a.tag[0] == 'float' and b.tag[0] == 'float' and isinstance(a.tag[1], (int, float)) and isinstance(b.tag[1], (int, float)):
+            # concrete IEEE-754 doubles: evaluated natively (floating point is not encoded symbolically)
+            x, y = float(a.tag[1]), float(b.tag[1])
+            if op in ('Add', 'Sub', 'Mul', 'Div'):
+                try: r = {'Add': x + y, 'Sub': x - y, 'Mul': x * y}[op] if op != 'Div' else (x / y if y != 0 else (float('nan') if x == 0 or x != x else (float('inf') if (x > 0) == (str(y)[0] != '-') else float('-inf'))))
+                except OverflowError: r = float('inf')
+                return Opaque(('float', r))
+            if op in ('Eq', 'Ne', 'Lt', 'Le', 'Gt', 'Ge'):
+                return {'Eq': x == y, 'Ne': x != y, 'Lt': x < y, 'Le': x <= y, 'Gt': x > y, 'Ge': x >= y}[op]
+            raise Unsupported('float binop ' + op)
         if isinstance(a, (Ref, Agg, Opaque)) or isinstance(b, (Ref, Agg, Opaque)):
             if op in ('Eq', 'Ne') and isinstance(a, Ref) and isinstance(b, Ref):
                 r = a.cell is b.cell and a.path == b.path
